@@ -201,6 +201,15 @@ def preorder_first(snap, m):
     return out
 
 
+def expected_to_raise(w, e):
+    """the only events of the generated streams that must raise: register_* with a value of the wrong class"""
+    if e[0] == "RegisterModule":
+        return e[3][0] != "M"
+    if e[0] == "RegisterParameter":
+        return e[3][0] != "P"
+    return False
+
+
 def judge_state(snap, obs):
     for m, o in enumerate(obs):
         ps = o["parameters"]
@@ -290,10 +299,10 @@ def run_impl(events, judge=True):
         before = w.snapshot() if judge else None
         try:
             w.apply(e)
-        except RecursionError:
-            raise
-        except Exception as ex:
+        except Exception as ex:       # includes RecursionError
             done.append(e)
+            if judge and verdict is None and not expected_to_raise(w, e):
+                verdict = {"after_event": len(done) - 1, "what": "%s raised %s" % (ev_coq(e), type(ex).__name__)}
             return done, type(ex).__name__, None, None, verdict
         done.append(e)
         if judge and verdict is None:
@@ -412,7 +421,10 @@ def part_exhaustive(ctx):
             for e in prelude + word:
                 if makes_cycle(w, e):
                     cyc = True; break
-                w.apply(e)
+                try:
+                    w.apply(e)
+                except Exception:     # judged by run_impl below
+                    break
             if cyc:
                 continue
             done, raised, obs, snap, verdict = run_impl(prelude + word)
